@@ -17,7 +17,7 @@ VARIABLE l
 tvars == <<cur, tags, partial, l>>
 
 Hdr == Rec[1]
-DigestOf(i) == IF i = "A" THEN Hdr.A ELSE Hdr.B
+DigestOf(i) == IF i = "A" THEN Hdr.A ELSE IF i = "B" THEN Hdr.B ELSE Hdr.C
 
 Bad(e, why) == PrintT(ToJson([ev |-> "MISMATCH", at |-> l, what |-> why, event |-> e, state |-> cur,
                               observed |-> why, allowed |-> <<>>, devs |-> {}]))
